@@ -1,24 +1,29 @@
 #!/bin/sh
 # usage: tools/try_seed.sh <seed_dir> <property> [tier]
 # 1. confirms the seeded change in a scratch worktree (compiles, suite still passes except the baseline
-#    failure, demo fails with / passes without the change), 2. applies it to /repo, runs the check, reverts.
+#    failure, demo fails with / passes without the change), 2. runs the check against that worktree
+#    (VERIF_REPO; evidence/replays go to a scratch directory, /repo is never touched), 3. removes the worktree.
+# SKIP_CONFIRM=1 skips step 1.
 set -u
-SEED="$1"; PROP="$2"; TIER="${3:-quick}"
+SEED="$(cd "$1" && pwd)"; PROP="$2"; TIER="${3:-quick}"
 export GOFLAGS=-mod=mod GOPROXY=off GOSUMDB=off GOTOOLCHAIN=local
 WT=$(mktemp -d /tmp/seedwt_XXXX)
+OUT=$(mktemp -d /tmp/seedout_XXXX)
 rmdir "$WT"
 git -C /repo worktree add -q "$WT" HEAD || exit 2
-trap 'git -C /repo worktree remove --force "$WT" >/dev/null 2>&1' EXIT
+trap 'git -C /repo worktree remove --force "$WT" >/dev/null 2>&1; rm -rf "$OUT"' EXIT
+if [ -z "${SKIP_CONFIRM:-}" ]; then
 cp "$SEED/demo_test.go" "$WT/zz_seed_demo_test.go"
-( cd "$WT" && go test -vet=off -count=1 -run TestSeedDemo . >/tmp/seed_base.log 2>&1 ); BASE=$?
+( cd "$WT" && go test -vet=off -count=1 -run 'TestSeedDemo$' . >"$OUT/base.log" 2>&1 ); BASE=$?
+fi
 ( cd "$WT" && git apply "$SEED/patch.diff" ) || { echo "patch does not apply"; exit 2; }
+if [ -z "${SKIP_CONFIRM:-}" ]; then
 ( cd "$WT" && go build ./... ) || { echo "does not build"; exit 2; }
-( cd "$WT" && go test -vet=off -count=1 -run TestSeedDemo . >/tmp/seed_mut.log 2>&1 ); MUT=$?
+( cd "$WT" && go test -vet=off -count=1 -run 'TestSeedDemo$' . >"$OUT/mut.log" 2>&1 ); MUT=$?
 rm -f "$WT/zz_seed_demo_test.go"
 FAILS=$( cd "$WT" && go test -vet=off -count=1 ./... 2>&1 | grep -- '^--- FAIL' | tr '\n' ' ' )
 echo "demo on base: exit $BASE (want 0); demo with change: exit $MUT (want !=0); suite failures with change: $FAILS"
-git -C /repo apply "$SEED/patch.diff" || exit 2
-( cd /verif && ./check "$PROP" "$TIER" ) > /tmp/seed_check.log 2>&1; RC=$?
-git -C /repo checkout -- .
-grep -v '^WARNING' /tmp/seed_check.log | grep -v 'slow job' | head -12 | cut -c1-300
+fi
+( cd /verif && VERIF_REPO="$WT" VERIF_OUT="$OUT" ./check "$PROP" "$TIER" ) > "$OUT/check.log" 2>&1; RC=$?
+grep -v '^WARNING' "$OUT/check.log" | grep -v 'slow job' | head -12 | cut -c1-300
 echo "check exit code: $RC"
